@@ -51,8 +51,9 @@ class Lexer:
         by the sqlparse core functions."""
         with cls._lock:
             if cls._default_instance is None:
-                cls._default_instance = cls()
-                cls._default_instance.default_initialization()
+                instance = cls()
+                instance.default_initialization()
+                cls._default_instance = instance
         return cls._default_instance
 
     def default_initialization(self):
